@@ -228,7 +228,10 @@ class PeriodicDriver(MachineDriver):
 
     def fingerprint(self):
         now = self.loop.time()
-        return (tuple((t["interval"], r6(math.fmod(now - t["start"], t["interval"])), t["cancel"] is None,
+        def phase(x, interval):
+            ph = r6(math.fmod(x, interval))
+            return 0.0 if abs(ph - interval) < 1e-5 or abs(ph) < 1e-5 else ph
+        return (tuple((t["interval"], phase(now - t["start"], t["interval"]), t["cancel"] is None,
                        t["ticks"] - int(math.floor((now - t["start"]) / t["interval"] + 1e-9)) if t["cancel"] is None else 0)
                       for t in self.tasks), self.rel_timers())
 
